@@ -85,6 +85,23 @@ class Norm:
         B = self.B(key)
         ds = B.defs().get(0, [])
         if len(ds) != 1:
+            # a checked conversion answering through its variant (`try_unique(this) -> Result<UniqueArc, Arc>`): one normal form
+            # per variant, if every path that returns that variant returns the same thing
+            cs = symx.path_cases(F, F.body(key)) if depth < 22 else None
+            by_variant = {}
+            if cs:
+                old = getattr(self, "_gmap", None)
+                self._gmap = gmap or {}
+                try:
+                    for _c, v in cs:
+                        if not (v[0] == "agg" and v[1] == "adt" and v[3] is not None):
+                            by_variant = None
+                            break
+                        by_variant.setdefault(str(v[3]), set()).add(self.norm(v, argmap or {}, depth + 1))
+                finally:
+                    self._gmap = old
+            if by_variant and all(len(x) == 1 for x in by_variant.values()):
+                return ("multi", tuple(sorted((k, next(iter(x))) for k, x in by_variant.items())))
             return ("opaque", "%s returns one of %d values" % (key, len(ds)))
         e = symx.local_expr(F, B, 0, 0)
         old = getattr(self, "_gmap", None)
@@ -135,6 +152,10 @@ class Norm:
         if k == "proj":
             r = self.norm(e[1], argmap, depth + 1)
             for name in e[2]:
+                if r[0] == "multi" and getattr(name, "variant", None) is not None:
+                    hit = [nf for vn, nf in r[1] if vn == name.variant]
+                    r = hit[0] if hit else ("opaque", "variant %s of %s" % (name.variant, r))
+                    continue
                 if name == "*":
                     if r[0] == "data":
                         r = ("dataplace", r[1], r[2])  # deref of a payload pointer is the payload place
